@@ -14,7 +14,8 @@ RULE = ("one run = one scenario (program + per-party call histories + RandState 
         "the same scenario again in a fresh interpreter under another PYTHONHASHSEED; oracle: every "
         "party's value trace is identical in all variants; snapshot/restore, shared RandState, argument "
         "mutation and default-state (global random seed) sub-scenarios. Non-trivial = >=1 party produced "
-        ">=2 successful calls with >=1 random field; distinct = (program shape, op 3-grams, variant mask).")
+        ">=2 successful calls with >=1 random field; distinct = (program shape, op 3-grams, variant mask)."
+        " Seeds use both mkFromSeed(n) and mkFromSeed(n, string); snapshots are taken on brand-new objects, right after a seed, and after calls.")
 REAL = ["pyvsc (all of src/vsc)", "PyBoolector", "Python random module (global and per-object)",
         "interpreter hash randomisation (real PYTHONHASHSEED per worker)", "gc / allocator"]
 STUB = ["wall clock (SimClock patched into vsc.model.randomizer.time)", "user code (generated)",
